@@ -68,25 +68,25 @@ PROP_GROUPS = {
 }
 
 PROP_SYNC = {
-    "C01": ["gen/GenConsts.v", "gen/SyncEnc.v", "gen/SyncDec.v", "gen/SyncMisc.v", "gen/SyncApi.v", "gen/SyncAcc.v", "gen/SyncWire.v", "gen/SyncWireDec.v", "gen/SyncBuf.v", "gen/SyncRead.v", "gen/SyncGetAny.v"],
-    "C02": ["gen/GenConsts.v", "gen/SyncEnc.v", "gen/SyncMisc.v", "gen/SyncApi.v", "gen/SyncAcc.v", "gen/SyncWire.v"],
-    "C03": ["gen/GenConsts.v", "gen/SyncDec.v", "gen/SyncMisc.v", "gen/SyncAcc.v", "gen/SyncWireDec.v", "gen/SyncBuf.v", "gen/SyncWire.v", "gen/SyncRead.v", "gen/SyncGetAny.v"],
-    "C04": ["gen/SyncDec.v", "gen/SyncMisc.v", "gen/SyncWireDec.v", "gen/SyncBuf.v", "gen/SyncWire.v", "gen/SyncRead.v", "gen/SyncGetAny.v"],
-    "C05": ["gen/SyncDec.v", "gen/SyncMisc.v", "gen/SyncWireDec.v", "gen/SyncBuf.v", "gen/SyncWire.v", "gen/SyncRead.v", "gen/SyncGetAny.v"],
-    "C06": ["gen/SyncDec.v", "gen/SyncMisc.v", "gen/SyncWireDec.v", "gen/SyncBuf.v", "gen/SyncWire.v", "gen/SyncRead.v", "gen/SyncGetAny.v"],
-    "C07": ["gen/SyncDec.v", "gen/SyncMisc.v", "gen/SyncWireDec.v", "gen/SyncBuf.v", "gen/SyncWire.v", "gen/SyncRead.v", "gen/SyncGetAny.v"],
-    "C08": ["gen/SyncDec.v", "gen/SyncMisc.v", "gen/SyncWireDec.v", "gen/SyncBuf.v", "gen/SyncWire.v", "gen/SyncRead.v", "gen/SyncGetAny.v"],
-    "C09": ["gen/GenConsts.v", "gen/SyncDec.v", "gen/SyncMisc.v", "gen/SyncWireDec.v", "gen/SyncBuf.v", "gen/SyncWire.v", "gen/SyncRead.v", "gen/SyncGetAny.v"],
-    "C10": ["gen/SyncEnc.v", "gen/SyncMisc.v", "gen/SyncString.v", "gen/SyncWire.v"],
-    "C11": ["gen/SyncEnc.v", "gen/SyncMisc.v", "gen/SyncApi.v", "gen/SyncEffects.v", "gen/SyncWire.v"],
-    "C12": ["gen/GenConsts.v", "gen/SyncEnc.v", "gen/SyncApi.v", "gen/SyncAcc.v", "gen/SyncWire.v"],
-    "C13": ["gen/SyncEnc.v", "gen/SyncDec.v", "gen/SyncMisc.v", "gen/SyncEffects.v", "gen/SyncWire.v", "gen/SyncWireDec.v", "gen/SyncBuf.v", "gen/SyncRead.v", "gen/SyncGetAny.v"],
-    "C14": ["gen/SyncDec.v", "gen/SyncMisc.v", "gen/SyncEffects.v", "gen/SyncWireDec.v", "gen/SyncBuf.v", "gen/SyncWire.v", "gen/SyncRead.v", "gen/SyncGetAny.v"],
-    "C15": ["gen/SyncWire.v", "gen/SyncWireDec.v", "gen/SyncBuf.v", "gen/SyncRead.v", "gen/SyncGetAny.v"],
-    "C16": ["gen/GenConsts.v", "gen/SyncEnc.v", "gen/SyncDec.v", "gen/SyncMisc.v", "gen/SyncAcc.v", "gen/SyncWire.v", "gen/SyncWireDec.v", "gen/SyncBuf.v", "gen/SyncRead.v", "gen/SyncGetAny.v"],
+    "C01": ["gen/GenConsts.v", "gen/SyncEnc.v", "gen/SyncDec.v", "gen/SyncMisc.v", "gen/SyncApi.v", "gen/SyncAcc.v", "gen/SyncWire.v", "gen/SyncWireDec.v", "gen/SyncBuf.v", "gen/SyncRead.v", "gen/SyncGetAny.v", "gen/SyncHygiene.v"],
+    "C02": ["gen/GenConsts.v", "gen/SyncEnc.v", "gen/SyncMisc.v", "gen/SyncApi.v", "gen/SyncAcc.v", "gen/SyncWire.v", "gen/SyncHygiene.v"],
+    "C03": ["gen/GenConsts.v", "gen/SyncDec.v", "gen/SyncMisc.v", "gen/SyncAcc.v", "gen/SyncWireDec.v", "gen/SyncBuf.v", "gen/SyncWire.v", "gen/SyncRead.v", "gen/SyncGetAny.v", "gen/SyncHygiene.v"],
+    "C04": ["gen/SyncDec.v", "gen/SyncMisc.v", "gen/SyncWireDec.v", "gen/SyncBuf.v", "gen/SyncWire.v", "gen/SyncRead.v", "gen/SyncGetAny.v", "gen/SyncHygiene.v"],
+    "C05": ["gen/SyncDec.v", "gen/SyncMisc.v", "gen/SyncWireDec.v", "gen/SyncBuf.v", "gen/SyncWire.v", "gen/SyncRead.v", "gen/SyncGetAny.v", "gen/SyncHygiene.v"],
+    "C06": ["gen/SyncDec.v", "gen/SyncMisc.v", "gen/SyncWireDec.v", "gen/SyncBuf.v", "gen/SyncWire.v", "gen/SyncRead.v", "gen/SyncGetAny.v", "gen/SyncHygiene.v"],
+    "C07": ["gen/SyncDec.v", "gen/SyncMisc.v", "gen/SyncWireDec.v", "gen/SyncBuf.v", "gen/SyncWire.v", "gen/SyncRead.v", "gen/SyncGetAny.v", "gen/SyncHygiene.v"],
+    "C08": ["gen/SyncDec.v", "gen/SyncMisc.v", "gen/SyncWireDec.v", "gen/SyncBuf.v", "gen/SyncWire.v", "gen/SyncRead.v", "gen/SyncGetAny.v", "gen/SyncHygiene.v"],
+    "C09": ["gen/GenConsts.v", "gen/SyncDec.v", "gen/SyncMisc.v", "gen/SyncWireDec.v", "gen/SyncBuf.v", "gen/SyncWire.v", "gen/SyncRead.v", "gen/SyncGetAny.v", "gen/SyncHygiene.v"],
+    "C10": ["gen/SyncEnc.v", "gen/SyncMisc.v", "gen/SyncString.v", "gen/SyncWire.v", "gen/SyncHygiene.v"],
+    "C11": ["gen/SyncEnc.v", "gen/SyncMisc.v", "gen/SyncApi.v", "gen/SyncEffects.v", "gen/SyncWire.v", "gen/SyncHygiene.v"],
+    "C12": ["gen/GenConsts.v", "gen/SyncEnc.v", "gen/SyncApi.v", "gen/SyncAcc.v", "gen/SyncWire.v", "gen/SyncHygiene.v"],
+    "C13": ["gen/SyncEnc.v", "gen/SyncDec.v", "gen/SyncMisc.v", "gen/SyncEffects.v", "gen/SyncWire.v", "gen/SyncWireDec.v", "gen/SyncBuf.v", "gen/SyncRead.v", "gen/SyncGetAny.v", "gen/SyncHygiene.v"],
+    "C14": ["gen/SyncDec.v", "gen/SyncMisc.v", "gen/SyncEffects.v", "gen/SyncWireDec.v", "gen/SyncBuf.v", "gen/SyncWire.v", "gen/SyncRead.v", "gen/SyncGetAny.v", "gen/SyncHygiene.v"],
+    "C15": ["gen/SyncWire.v", "gen/SyncWireDec.v", "gen/SyncBuf.v", "gen/SyncRead.v", "gen/SyncGetAny.v", "gen/SyncHygiene.v"],
+    "C16": ["gen/GenConsts.v", "gen/SyncEnc.v", "gen/SyncDec.v", "gen/SyncMisc.v", "gen/SyncAcc.v", "gen/SyncWire.v", "gen/SyncWireDec.v", "gen/SyncBuf.v", "gen/SyncRead.v", "gen/SyncGetAny.v", "gen/SyncHygiene.v"],
     "C17": ["gen/SyncString.v", "gen/SyncAcc.v", "gen/SyncWf.v"],
-    "C18": ["gen/SyncEnc.v", "gen/SyncAcc.v", "gen/SyncDump.v", "gen/SyncString.v", "gen/SyncWire.v"],
-    "C19": ["gen/SyncEnc.v", "gen/SyncDec.v", "gen/SyncAcc.v", "gen/SyncDump.v", "gen/SyncString.v", "gen/SyncWire.v", "gen/SyncWireDec.v", "gen/SyncBuf.v", "gen/SyncRead.v", "gen/SyncGetAny.v"],
+    "C18": ["gen/SyncEnc.v", "gen/SyncAcc.v", "gen/SyncDump.v", "gen/SyncString.v", "gen/SyncWire.v", "gen/SyncHygiene.v"],
+    "C19": ["gen/SyncEnc.v", "gen/SyncDec.v", "gen/SyncAcc.v", "gen/SyncDump.v", "gen/SyncString.v", "gen/SyncWire.v", "gen/SyncWireDec.v", "gen/SyncBuf.v", "gen/SyncRead.v", "gen/SyncGetAny.v", "gen/SyncHygiene.v"],
 }
 
 
